@@ -115,4 +115,12 @@ CLAIMS['C15'] = {
             '(TLC); Mon_C15 compares the real decoder on every day x 3 times, (every 5th / every) second of the day on 7 days, the real encoder on '
             'days and seconds, all hh:mm and (every 13th / all) hh:mm:ss BCD durations and raw patterns with those definitions.',
     'note': CODEC_NOTE, 'technique': 'TLA+ calendar model checked by TLC + definitions evaluated over real-code traces (Mon_C15)', 'ref': 'DESIGN.md 4 C15'}
+CLAIMS['C16'] = {
+    'text': 'Pool.tla models the process-wide bytesPool shared by 3 concurrent instances (read buffer, get / fill / extract / put / return): TLC proves '
+            'single holder, release before return and that no returned result shares memory with a pool item or read buffer (3.4 M states; '
+            'counterexample for a non-copying extract). Real runs: every returned Packet/DemuxerData is re-digested after later calls and at the end, '
+            'its byte ranges are compared with the pool items of the call and the read buffer (verif pool observer), Muxer payload digests, and 2..64 '
+            'concurrent workers are compared with their solo results under the Go race detector; Mon_C16 judges all of it.',
+    'note': TRUST + ' The clause "without data races" is observed by the Go race detector (a runtime observer) whose report count the monitor judges.',
+    'technique': 'TLA+ model checking (TLC) + trace validation of real-code aliasing/concurrency traces (Mon_C16)', 'ref': 'DESIGN.md 4 C16'}
 NOT_CLAIMED = {}
